@@ -5,7 +5,7 @@ CONSTANTS
   XS1 <- X1_A
   XS2 <- X2_A
   FS2 <- FS2_A
-  ParamSet <- PS_Core
+  ParamSet <- PS_Deep
   MaxSteps = 5
   MaxRuns = 2
   D = 2520
@@ -13,4 +13,3 @@ CONSTANTS
 VIEW View
 INVARIANTS TypeOK CountExact SumExact DroppedOutside AppliedOK OutsideZero NoBiasZero CapOK DeliveredOK MeanOK
 CHECK_DEADLOCK FALSE
-\* vacuity: on
